@@ -165,9 +165,9 @@ def explore(ctx):
                 'distinct tree whose splice the independent splicer could compute; plus shadow trees: the included name also exists in '
                 'the directory of a file read earlier, and the SAME include_dirs list object is passed to two consecutive calls')
     gen = fe.TreeGen(ctx.rng)
-    n = 14 if ctx.quick() else 120
+    n = 30 if ctx.quick() else 120
     trees = [gen.make('bytes' if i % 5 == 4 else ('plain' if i % 5 < 3 else None)) for i in range(n)]
-    trees += fe.shadow_trees(ctx.rng, 4 if ctx.quick() else 24)
+    trees += fe.shadow_trees(ctx.rng, 8 if ctx.quick() else 24)
     etrees = fe.error_trees()
     base = tempfile.mkdtemp(prefix='bbc14_')
     corr_cases = []
